@@ -100,7 +100,9 @@ def msa_case(rng, idx, pool):
         if call == "winrev" and sel == fmt and kind == "valid":
             # reverse complement needs a nucleic row: text mode with nucleic letters only, or a DNA/RNA alphabet (with symbols the
             # alphabet lacks the open/read fails first, which ends the session)
-            reverse_ok = (abc in ("dna", "rna")) or (abc == "text" and nucleic)
+            # (amino alphabet: no complement; a row with other symbols: some formats map them to gaps in digital mode - PHYLIP 'O' -,
+            #  so the residue count the schedule relies on would be off)
+            reverse_ok = nucleic and abc in ("text", "dna", "rna")
             ops += window_schedule(rng, rows, abc, reverse_ok)
             sched.append(s_)
         elif call in ("fwdwin", "winrev"):
@@ -164,7 +166,8 @@ def monitor(case, out):
             if err:
                 return Failure("monitor", "windows over a %s file read as sequences (abc=%s): %s" % (meta.get("msafmt"), abc, err))
             for i, (name, seq, L) in enumerate(recon):
-                if i < len(rows) and (L != len(rows[i]) or (abc == "text" and not same_residues(seq, rows[i], meta.get("msafmt")))):
+                # (digital mode: a format may map a symbol the alphabet lacks to a gap - PHYLIP reads 'O' as a deletion -: compared in text mode only)
+                if i < len(rows) and abc == "text" and (L != len(rows[i]) or not same_residues(seq, rows[i], meta.get("msafmt"))):
                     return Failure("monitor", "windows over sequence %d of the %s alignment do not reassemble the dealigned row (L=%d, row has %d)" % (
                         i, meta.get("msafmt"), L, len(rows[i])))
     return None
